@@ -19,6 +19,8 @@ CLAIMED = {
          'Static: every native PLONK/FRI/Merkle check has an unconditional in-circuit twin fed by the corresponding targets (incl. the variable-degree FRI variant); the in-circuit transcript aligns with the native one; set_proof_with_pis_target/set_verifier_data_target write every target field from the same-named value field; native and target opening sets are flattened in the same order. Equality of the accepted sets is not decided.', '5/C06'),
  'C07': ('per-gate accessor data-flow (typed HIR with gate-local inlining): generator-used wire accessors must reach emitted constraints in each evaluator; cross-evaluator set agreement; branch-balanced counter lint',
          'Static: for all 16 gates, every wire accessor read or written by the gate\'s generators flows into a constraint emitted by each of its evaluators (extension, base/packed, circuit); the evaluators constrain the same accessor set; if/else arms advance the same counters. That the constraints determine the outputs, evaluator value-equality and degrees are not decided.', '5/C07'),
+ 'C08': ('push-skeleton extraction of the three lookup-constraint evaluators (agreement + argument shape + declared count), selector census, index-expression comparison (initial accumulator), selector-range tiling, symbolic interval bound on padding',
+         'Static: the three lookup evaluators push the same selector-filtered skeleton, which has the shape of the argument and matches the declared capacity; every selector variant is produced and used; the accumulator pinned under InitSre is the one the first Sum transition reads (this rule reports defect D7 on the original tree); selector ranges tile the lookup block; all lookup gate wires reach constraints; padding uses fewer slots than a row. The log-derivative algebra is not decided.', '5/C08'),
  'C09': ('consumer filter-binding analysis, STARK verifier obligation table, transcript rules on the STARK functions, zip-partner length pinning from the STARK entry point, interval abstract interpretation of quotient_degree_factor',
          'Static: transition/first-row/last-row constraints are multiplied by exactly z_last / L_0 / L_last in both consumers and folded with every alpha; every check of the native STARK verifier exists, is unconditional and fed by the proof; vanishing evaluators always evaluate the STARK constraints (and lookups/CTLs when present); the STARK transcript is complete, ordered and agreed between prover, verifier and circuit; caps/batches handed to FRI are pinned to the instance; a STARK with constraints always has a quotient (interval analysis). Soundness algebra is not decided.', '5/C09'),
  'C10': ('consumer-call skeleton extraction and comparison (native vs circuit; against the argument shape), data-flow obligations on each constraint',
